@@ -39,6 +39,9 @@ Ltac nlia :=
 Section Frag.
 Variable eok : expression -> bool.
 Variable etext : expression -> bytes -> Prop.
+(* what is known of the expression the parser returns for a placeable, beyond that it joins to the printed one
+   (used for C04: its nested patterns have one text element per line) *)
+Variable egood : expression -> Prop.
 
 (* ---------------------------------------------------------------------------------------------- *)
 (* 1. The fragment                                                                                  *)
@@ -260,7 +263,7 @@ Definition text_nonempty (el : pattern_element) : Prop :=
 (* ... and a line feed only as the last byte of a text element: the parser returns one text element per line *)
 Definition lf_last (v : bytes) : Prop := existsb (N.eqb 10) (removelast v) = false.
 Definition text_ok (el : pattern_element) : Prop :=
-  match el with TextElement v => v <> [] /\ lf_last v | _ => True end.
+  match el with TextElement v => v <> [] /\ lf_last v | PlaceableElement e => egood e end.
 Lemma text_ok_nonempty el : text_ok el -> text_nonempty el.
 Proof. destruct el as [[|b v]|e]; cbn; [intros [H _]; congruence | auto | auto]. Qed.
 Lemma existsb_removelast {X} (f : X -> bool) l : existsb f l = false -> existsb f (removelast l) = false.
@@ -348,7 +351,7 @@ Hypothesis HB : 1 <= B.
    that joins to it *)
 Hypothesis Hplace : forall e X b1 b2 rest p n, eok e = true -> etext e X -> all_blank b1 -> all_blank b2 ->
   at_ bs p (b1 ++ X ++ b2 ++ 125%N :: rest) -> 3 * length (b1 ++ X ++ b2 ++ 125%N :: rest) + 8 <= n ->
-  exists e', get_placeable bs n p = Ok e' (S (length (b1 ++ X ++ b2) + p)) /\ join_expr e' = join_expr e.
+  exists e', get_placeable bs n p = Ok e' (S (length (b1 ++ X ++ b2) + p)) /\ join_expr e' = join_expr e /\ egood e'.
 
 Lemma after_value_cc T used cc nx : after_value T used cc nx -> cc <= length T.
 Proof.
@@ -453,7 +456,7 @@ Definition stream_raw (r : option raw) : list (N + expression) :=
   match r with Some (RText v) => map inl v | Some (RPlace e) => [inr (join_expr e)] | None => [] end.
 Definition stream_raws (raws : list (option raw)) : list (N + expression) := flat_map stream_raw raws.
 Definition raw_ne (r : option raw) : Prop :=
-  match r with Some (RText v) => v <> [] /\ lf_last v | _ => True end.
+  match r with Some (RText v) => v <> [] /\ lf_last v | Some (RPlace e) => egood e | None => True end.
 Lemma raw_ne_line_lf c : text_line c -> raw_ne (Some (RText (c ++ [10%N]))).
 Proof. intros H. split; [destruct c; discriminate | apply lf_last_snoc, text_line_no_lf, H]. Qed.
 Lemma raw_ne_line c : text_line c -> c <> [] -> raw_ne (Some (RText c)).
@@ -486,7 +489,7 @@ Proof.
   - intros Hne. inversion Hne as [|? ? Hr Hrs]; subst. specialize (IH2 Hrs).
     destruct r as [[v|e]|]; cbn [finish_out opt_cons]; rewrite ?Hi; try (constructor; [|exact IH2]); try exact IH2.
     + exact Hr.
-    + exact Logic.I.
+    + exact Hr.
 Qed.
 
 
@@ -906,15 +909,15 @@ Qed.
 Lemma placeable_reach e b1 b2 X rest phs raws lnb ci rl p n :
   is_line_start rl = false -> eok e = true -> etext e X -> all_blank b1 -> all_blank b2 ->
   at_ bs p (123%N :: b1 ++ X ++ b2 ++ 125%N :: rest) -> 3 * length (b1 ++ X ++ b2 ++ 125%N :: rest) + 8 <= n -> acc phs raws ->
-  exists e', join_expr e' = join_expr e /\
+  exists e', join_expr e' = join_expr e /\ egood e' /\
     reach (S n) (st_of phs lnb ci rl) p n
           (st_of (PHPlaceable e' :: phs) (Some (length phs)) ci Continuation)
           (length (123%N :: b1 ++ X ++ b2 ++ [125%N]) + p) /\
     acc (PHPlaceable e' :: phs) (raws ++ [Some (RPlace e')]).
 Proof.
   intros Hrl He HX Hb1 Hb2 H Hn Hacc.
-  destruct (Hplace e X b1 b2 rest (S p) n He HX Hb1 Hb2 (at_cons _ _ _ _ H) Hn) as (e' & Egp & Ej).
-  exists e'. split; [exact Ej|]. split.
+  destruct (Hplace e X b1 b2 rest (S p) n He HX Hb1 Hb2 (at_cons _ _ _ _ H) Hn) as (e' & Egp & Ej & Hg).
+  exists e'. split; [exact Ej|]. split; [exact Hg|]. split.
   - unfold reach, st_of. cbn [pattern_loop]. rewrite bind_get_ptr.
     rewrite (at_ltb _ _ _ _ H). cbn [negb].
     step (take_byte_if_yes bs p 123 _ H). cbv iota. cbn [role elements n_elements common_indent]. rewrite Hrl.
@@ -942,7 +945,7 @@ Definition stream_last (r : raw) (w' : bytes) : list (N + expression) :=
 Lemma final_from_acc_g n st p pfin extra phs raws0 last w' ne' lnbF ci role' :
   pattern_loop bs n st p = Ok (PState (extra ++ phs) ne' (Some lnbF) ci role') pfin -> ci_end_ok ci phs ->
   acc phs (raws0 ++ [Some last]) -> length phs = S lnbF -> Forall raw_ne raws0 ->
-  match last with RText w => trim_end w = w' /\ trim_end w' = w' /\ w' <> [] /\ lf_last w' | RPlace _ => True end ->
+  match last with RText w => trim_end w = w' /\ trim_end w' = w' /\ w' <> [] /\ lf_last w' | RPlace e => egood e end ->
   completes n st p pfin (stream_raws raws0 ++ stream_last last w').
 Proof.
   intros E Hcie Hacc Hlen Hne Hlast.
@@ -962,13 +965,13 @@ Proof.
     unfold tail_kept in Hk. rewrite Hk. reflexivity.
   - rewrite stream_app, Hs0. f_equal. unfold x, stream, stream_last. destruct last; cbn [flat_map stream_el]; apply app_nil_r.
   - apply Forall_app. split; [apply Hne0, Hne|]. constructor; [|constructor].
-    unfold x. destruct last as [w|e]; [|exact Logic.I]. destruct Hlast as (_ & _ & H3 & H4). split; assumption.
+    unfold x. destruct last as [w|e]; [|exact Hlast]. destruct Hlast as (_ & _ & H3 & H4). split; assumption.
 Qed.
 
 Lemma final_from_acc n st p pfin extra phs raws0 last w' ne' lnbF role' :
   pattern_loop bs n st p = Ok (PState (extra ++ phs) ne' (Some lnbF) (Some B) role') pfin ->
   acc phs (raws0 ++ [Some last]) -> length phs = S lnbF -> Forall raw_ne raws0 ->
-  match last with RText w => trim_end w = w' /\ trim_end w' = w' /\ w' <> [] /\ lf_last w' | RPlace _ => True end ->
+  match last with RText w => trim_end w = w' /\ trim_end w' = w' /\ w' <> [] /\ lf_last w' | RPlace e => egood e end ->
   completes n st p pfin (stream_raws raws0 ++ stream_last last w').
 Proof. intros E. apply (final_from_acc_g n st p pfin extra phs raws0 last w' ne' lnbF (Some B) role' E). left. reflexivity. Qed.
 
@@ -1069,10 +1072,10 @@ Qed.
 (* the pattern ends with a placeable *)
 Lemma nil_final_g T used cc nx phs raws0 e lnb ci rl p n :
   after_value T used cc nx -> at_ bs p T -> is_line_start rl = false ->
-  acc phs (raws0 ++ [Some (RPlace e)]) -> Forall raw_ne raws0 -> ci_end_ok ci phs -> lnb = Some (length phs - 1) -> 2 * cc + 4 <= n ->
+  acc phs (raws0 ++ [Some (RPlace e)]) -> Forall raw_ne raws0 -> egood e -> ci_end_ok ci phs -> lnb = Some (length phs - 1) -> 2 * cc + 4 <= n ->
   completes n (st_of phs lnb ci rl) p (used + p) (stream_raws (raws0 ++ [Some (RPlace e)])).
 Proof.
-  intros HT H Hrl Hacc Hne Hcie Hlnb Hn.
+  intros HT H Hrl Hacc Hne Hge Hcie Hlnb Hn.
   destruct (after_placeable bs T used cc nx phs (length phs) lnb ci rl p n HT Hrl H Hn) as (extra & ne' & role' & E).
   assert (Hlen : 1 <= length phs).
   { pose proof (acc_length _ _ Hacc) as HL. rewrite app_length in HL. cbn [length] in HL. lia. }
@@ -1084,16 +1087,16 @@ Proof.
   - exact Hacc.
   - lia.
   - exact Hne.
-  - exact Logic.I.
+  - exact Hge.
 Qed.
 
 Lemma nil_final T used cc nx phs raws0 e lnb rl p n :
   after_value T used cc nx -> at_ bs p T -> is_line_start rl = false ->
-  acc phs (raws0 ++ [Some (RPlace e)]) -> Forall raw_ne raws0 -> lnb = Some (length phs - 1) -> 2 * cc + 4 <= n ->
+  acc phs (raws0 ++ [Some (RPlace e)]) -> Forall raw_ne raws0 -> egood e -> lnb = Some (length phs - 1) -> 2 * cc + 4 <= n ->
   completes n (st_of phs lnb (Some B) rl) p (used + p) (stream_raws (raws0 ++ [Some (RPlace e)])).
 Proof.
-  intros HT H Hrl Hacc Hne Hlnb Hn.
-  apply (nil_final_g T used cc nx phs raws0 e lnb (Some B) rl p n HT H Hrl Hacc Hne (or_introl eq_refl) Hlnb Hn).
+  intros HT H Hrl Hacc Hne Hge Hlnb Hn.
+  apply (nil_final_g T used cc nx phs raws0 e lnb (Some B) rl p n HT H Hrl Hacc Hne Hge (or_introl eq_refl) Hlnb Hn).
 Qed.
 
 
@@ -1368,8 +1371,8 @@ Proof.
     destruct (Hnil eq_refl) as (raws0 & e & -> & Hlnb).
     assert (Hcib : ci = Some B) by (destruct Hhit as [Hh | Hh]; [exact Hh | discriminate Hh]). subst ci.
     cbn [app length Nat.add] in *. unfold stream. cbn [flat_map]. rewrite app_nil_r.
-    apply Forall_app in Hne as [Hne0 _].
-    apply (nil_final T used cc nx phs raws0 e lnb rl p n HT H Hrl Hacc Hne0 Hlnb). nlia.
+    apply Forall_app in Hne as [Hne0 Hne1]. pose proof (Forall_inv Hne1) as Hge. cbn [raw_ne] in Hge.
+    apply (nil_final T used cc nx phs raws0 e lnb rl p n HT H Hrl Hacc Hne0 Hge Hlnb). nlia.
   - (* a text element *)
     cbn [ml_elements] in Hs. apply andb_prop in Hs as [Hs Hr]. apply andb_prop in Hs as [_ Hv].
     unfold ml_text in Hv. rewrite Elines in Hv. apply andb_prop in Hv as [Hv Hrest]. apply andb_prop in Hv as [Hvne Hl0].
@@ -1495,7 +1498,7 @@ Proof.
     rewrite app_length, HlenL in Hn.
     destruct (placeable_reach e b1 b2 X (Lr ++ T) phs raws lnb ci rl p n Hrl Hi HX Hb1 Hb2 H'
                 ltac:(cbn [length] in Hn; rewrite !app_length in Hn |- *; cbn [length] in Hn |- *; rewrite !app_length; nlia) Hacc)
-      as (e' & Ej & Hreach & Hacc').
+      as (e' & Ej & Hg & Hreach & Hacc').
     apply (completes_reach _ _ _ _ _ _ _ _ Hreach).
     assert (H2 : at_ bs (length (123%N :: b1 ++ X ++ b2 ++ [125%N]) + p) (Lr ++ T)).
     { replace (123%N :: b1 ++ X ++ b2 ++ 125%N :: Lr ++ T)
@@ -1508,7 +1511,7 @@ Proof.
       with (used + (length Lr + (length (123%N :: b1 ++ X ++ b2 ++ [125%N]) + p))) by (rewrite HlenL; nlia).
     assert (Hends' : ends_ok r) by (destruct r; [exact Logic.I | exact Hends]).
     assert (Hne' : Forall raw_ne (raws ++ [Some (RPlace e')])).
-    { apply Forall_app. split; [exact Hne | constructor; [exact Logic.I | constructor]]. }
+    { apply Forall_app. split; [exact Hne | constructor; [exact Hg | constructor]]. }
     assert (Hnil' : r = [] -> exists raws0 e0, raws ++ [Some (RPlace e')] = raws0 ++ [Some (RPlace e0)] /\
                                  Some (length phs) = Some (length (PHPlaceable e' :: phs) - 1)).
     { intros _. exists raws, e'. split; [reflexivity|]. cbn [length]. f_equal. nlia. }
@@ -1674,8 +1677,8 @@ Proof.
     pose proof (after_value_cc _ _ _ _ HT) as Hcc.
   - destruct (Hnil eq_refl) as (raws0 & e & -> & Hlnb).
     cbn [app length Nat.add] in *. unfold stream. cbn [flat_map]. rewrite app_nil_r.
-    apply Forall_app in Hne as [Hne0 _].
-    apply (nil_final_g T used cc nx phs raws0 e lnb None rl p n HT H Hrl Hacc Hne0); [right; split; [reflexivity | exact Hnls] | exact Hlnb | nlia].
+    apply Forall_app in Hne as [Hne0 Hne1]. pose proof (Forall_inv Hne1) as Hge. cbn [raw_ne] in Hge.
+    apply (nil_final_g T used cc nx phs raws0 e lnb None rl p n HT H Hrl Hacc Hne0 Hge); [right; split; [reflexivity | exact Hnls] | exact Hlnb | nlia].
   - cbn [has_lf existsb] in Hno. apply orb_false_elim in Hno as [Hno1 Hno2].
     assert (El : lines_of v = [v]) by (unfold lines_of; rewrite (no_lf_lines_of v [] Hno1); reflexivity).
     rewrite El in Elines. injection Elines as <- <-. inversion HTL; subst TL. cbn [app] in *.
@@ -1715,7 +1718,7 @@ Proof.
     rewrite app_length, HlenL in Hn.
     destruct (placeable_reach e b1 b2 X (Lr ++ T) phs raws lnb None rl p n Hrl Hi HX Hb1 Hb2 H'
                 ltac:(cbn [length] in Hn; rewrite !app_length in Hn |- *; cbn [length] in Hn |- *; rewrite !app_length; nlia) Hacc)
-      as (e' & Ej & Hreach & Hacc').
+      as (e' & Ej & Hg & Hreach & Hacc').
     apply (completes_reach _ _ _ _ _ _ _ _ Hreach).
     assert (H2 : at_ bs (length (123%N :: b1 ++ X ++ b2 ++ [125%N]) + p) (Lr ++ T)).
     { replace (123%N :: b1 ++ X ++ b2 ++ 125%N :: Lr ++ T)
@@ -1729,7 +1732,7 @@ Proof.
     assert (Hends' : ends_ok r) by (destruct r; [exact Logic.I | exact Hends]).
     apply (IH Hno false T used cc nx (PHPlaceable e' :: phs) (raws ++ [Some (RPlace e')]) (Some (length phs))
               Continuation _ n Hr Hends' HT eq_refl Hacc').
-    + apply Forall_app. split; [exact Hne | constructor; [exact Logic.I | constructor]].
+    + apply Forall_app. split; [exact Hne | constructor; [exact Hg | constructor]].
     + constructor; [exact Logic.I | exact Hnls].
     + intros _. exists raws, e'. split; [reflexivity|]. cbn [length]. f_equal. nlia.
     + exact H2.
@@ -1903,7 +1906,7 @@ Qed.
 (* get_placeable on the layouts of the class, on every input *)
 Hypothesis Hplace_all : forall bs e X b1 b2 rest p n, eok e = true -> etext e X -> all_blank b1 -> all_blank b2 ->
   at_ bs p (b1 ++ X ++ b2 ++ 125%N :: rest) -> 3 * length (b1 ++ X ++ b2 ++ 125%N :: rest) + 8 <= n ->
-  exists e', get_placeable bs n p = Ok e' (S (length (b1 ++ X ++ b2) + p)) /\ join_expr e' = join_expr e.
+  exists e', get_placeable bs n p = Ok e' (S (length (b1 ++ X ++ b2) + p)) /\ join_expr e' = join_expr e /\ egood e'.
 
 Lemma get_pattern_ml bs els V T used c nx p n :
   ml_pattern (Pattern els) = true -> ml_value_layout els V -> after_value T used c nx -> at_ bs p (V ++ T) ->
